@@ -10,6 +10,7 @@ Definition hentry0 := {| h_sym := 0; h_bits := 0 |}.
 
 Record huf_table := {
   ht_decode : list huf_entry;
+  ht_len : Z;              (* = length ht_decode, kept alongside for O(1) bounds checks *)
   ht_weights : list Z;
   ht_max_bits : Z;
   ht_bits : list Z;
@@ -18,14 +19,14 @@ Record huf_table := {
   ht_fse : fse_table;
 }.
 Definition huf_new : huf_table :=
-  {| ht_decode := []; ht_weights := []; ht_max_bits := 0; ht_bits := []; ht_bit_ranks := [];
+  {| ht_decode := []; ht_len := 0; ht_weights := []; ht_max_bits := 0; ht_bits := []; ht_bit_ranks := [];
      ht_rank_indexes := []; ht_fse := fse_new 255 |}.
 Definition huf_reset (t : huf_table) : huf_table :=
-  {| ht_decode := []; ht_weights := []; ht_max_bits := 0; ht_bits := []; ht_bit_ranks := [];
+  {| ht_decode := []; ht_len := 0; ht_weights := []; ht_max_bits := 0; ht_bits := []; ht_bit_ranks := [];
      ht_rank_indexes := []; ht_fse := fse_reset (ht_fse t) |}.
 (** [reinit_from] copies everything except [bit_ranks] (left cleared by [reset]) *)
 Definition huf_reinit_from (t other : huf_table) : huf_table :=
-  {| ht_decode := ht_decode other; ht_weights := ht_weights other; ht_max_bits := ht_max_bits other;
+  {| ht_decode := ht_decode other; ht_len := ht_len other; ht_weights := ht_weights other; ht_max_bits := ht_max_bits other;
      ht_bits := ht_bits other; ht_bit_ranks := []; ht_rank_indexes := ht_rank_indexes other;
      ht_fse := fse_reinit_from (ht_fse t) (ht_fse other) |}.
 
@@ -164,7 +165,7 @@ Definition build_table_from_weights (ws : list Z) : res (list huf_entry * Z * li
 Definition huf_build_decoder (t : huf_table) (source : list Z) : res (huf_table * Z) :=
   let* (ws, ft, bytes) := read_weights t source in
   let* (dec, max_bits, bits, ranks, idxs) := build_table_from_weights ws in
-  ROk ({| ht_decode := dec; ht_weights := ws; ht_max_bits := max_bits; ht_bits := bits; ht_bit_ranks := ranks;
+  ROk ({| ht_decode := dec; ht_len := 2 ^ max_bits; ht_weights := ws; ht_max_bits := max_bits; ht_bits := bits; ht_bit_ranks := ranks;
           ht_rank_indexes := idxs; ht_fse := ft |}, bytes).
 
 (** *** the decoder: [state] indexes the table *)
@@ -173,15 +174,15 @@ Definition nth_h (l : list huf_entry) (i : Z) : huf_entry := nth (Z.to_nat i) l 
 Definition huf_init_state (t : huf_table) (br : rbr) : Z * rbr := rbr_get_bits br (ht_max_bits t).
 
 Definition huf_decode_symbol (t : huf_table) (state : Z) : res Z :=
-  if Z.of_nat (length (ht_decode t)) <=? state then RPanic "index out of bounds"
+  if ht_len t <=? state then RPanic "index out of bounds"
   else ROk (h_sym (nth_h (ht_decode t) state)).
 
 Definition huf_next_state (t : huf_table) (state : Z) (br : rbr) : res (Z * rbr) :=
-  if Z.of_nat (length (ht_decode t)) <=? state then RPanic "index out of bounds"
+  if ht_len t <=? state then RPanic "index out of bounds"
   else
     let nb := h_bits (nth_h (ht_decode t) state) in
     let '(new_bits, br) := rbr_get_bits br nb in
-    let len := Z.of_nat (length (ht_decode t)) in
+    let len := ht_len t in
     (* (state << num_bits) & (len - 1) | new_bits ; len is a power of two *)
     ROk (Z.lor (Z.land (state * 2 ^ nb) (len - 1)) new_bits, br).
 
